@@ -1,4 +1,5 @@
 import Driver.Scheme
+import Heathcliff.Model.Evaluator
 namespace Drv.C01
 open HC Drv Drv.Sch
 
@@ -43,6 +44,30 @@ def handle (fn : String) : Handler := fun a _impl =>
         let okN := (List.range p.n).all fun j =>
           (Spec.centred (Spec.imod (ph.getD j 0 - plc.getD j 0) Q) Q).natAbs ≤ B
         some (model, if okN then exactDec p else "RELFAIL(fresh CKKS noise above the deterministic bound)")
+  | "multiply_add_plain", [sub, n, qs, t, plain, dest] =>
+    -- model: the word arithmetic of multiply_add_plain with the context constants computed from their definitions;
+    -- spec: dest ± round(Q·m/t) mod q_j
+    let sub := sub == "1"; let n := pNat n; let qs := pList qs; let t := pNat t
+    let plain := (pList plain).toArray; let dest := Drv.C10.pPoly dest
+    let Q := Spec.prodL qs
+    let model : R RnsPoly := do
+      let l ← mkLevel .bfv n qs t
+      let cdp ← (List.range qs.length).mapM fun j => MulOperand.new ((Q / t) % qs.getD j 1) (l.q j)
+      if sub then
+        -- multiply_sub_plain: same scaled value, subtracted
+        let zero := Array.replicate qs.length (Array.replicate n 0)
+        let added ← multiplyAddPlain l cdp.toArray (Q % t) ((t + 1) / 2) plain zero
+        rnsSub l dest added
+      else multiplyAddPlain l cdp.toArray (Q % t) ((t + 1) / 2) plain dest
+    let spec := Drv.C10.fPoly (Array.ofFn (n := qs.length) fun j =>
+      let q := qs.getD j.val 1
+      Array.ofFn (n := n) fun i =>
+        let d := (dest.getD j.val #[]).getD i.val 0
+        if i.val < plain.size then
+          let dm := (Q * plain.getD i.val 0 + (t + 1) / 2) / t
+          if sub then (d + q - dm % q) % q else (d + dm) % q
+        else d)
+    some (fR Drv.C10.fPoly model, spec)
   | "fresh_budget", [scheme, n, qs, t, sk, ntt, cf, polys] =>
     -- exact budget by definition, and the lower bound implied by the deterministic fresh-noise bound
     let p := parseCt scheme n qs t sk ntt cf polys
